@@ -71,6 +71,23 @@ impl Case {
         }
     }
 
+    /// Shape of the scales tensor handed to `BlockQuantizedMatrix::new`.
+    pub fn scales_shape(&self) -> (usize, usize) {
+        let (n, kb) = (self.n, self.k_blocks);
+        match self.mismatch {
+            0 => (n, kb),
+            1 => (n.saturating_sub(1), kb),
+            2 => (n + 1, kb),
+            3 => (n, kb.saturating_sub(1)),
+            4 => (n, kb + 1),
+            _ => (kb, n),
+        }
+    }
+
+    pub fn effective_mismatch(&self) -> bool {
+        self.scales_shape() != (self.n, self.k_blocks)
+    }
+
     pub fn nontrivial(&self) -> bool {
         self.mismatch == 0 && self.k_blocks >= 2 && self.batch >= 1 && self.m >= 1 && self.n >= 1
     }
@@ -93,7 +110,7 @@ pub fn signature(case: &Case, kind: &str, guard: Option<GuardPos>) -> String {
         format!("fail={}", kind),
         format!("batch={},m={},n={},block={},k_blocks={}", case.batch, case.m, case.n, case.block, case.k_blocks),
     ];
-    if case.mismatch != 0 {
+    if case.effective_mismatch() {
         parts.push(format!("scales_shape={}", ["ok", "(n-1,kb)", "(n+1,kb)", "(n,kb-1)", "(n,kb+1)", "(kb,n)"][case.mismatch as usize % 6]));
     }
     if case.scales != 0 {
@@ -241,15 +258,8 @@ fn exec_inner(case: &Case, guard: Option<GuardPos>) -> Outcome {
             }
         })
         .collect();
-    let (sn, skb) = match case.mismatch {
-        0 => (n, kb),
-        1 => (n.saturating_sub(1), kb),
-        2 => (n + 1, kb),
-        3 => (n, kb.saturating_sub(1)),
-        4 => (n, kb + 1),
-        _ => (kb, n),
-    };
-    let effective_mismatch = (sn, skb) != (n, kb);
+    let (sn, skb) = case.scales_shape();
+    let effective_mismatch = case.effective_mismatch();
     let scales: Vec<f32> = (0..sn * skb).map(|_| scale_value(&mut rng, case.scales)).collect();
     let quant_buf = Buf::new(quant, guard);
     let scales_buf = Buf::new(scales, guard);
@@ -498,7 +508,7 @@ fn shrink(case: &Case, guard: Option<GuardPos>, kind: &str, run: &mut dyn FnMut(
     let mut g = guard;
     let mut runs = 0u32;
     let mut still = |c: &Case, g: Option<GuardPos>, runs: &mut u32| -> bool {
-        if *runs >= 150 {
+        if *runs >= max_shrink_runs() {
             return false;
         }
         *runs += 1;
@@ -508,12 +518,14 @@ fn shrink(case: &Case, guard: Option<GuardPos>, kind: &str, run: &mut dyn FnMut(
         g = None;
     }
     let steps: Vec<Box<dyn Fn(&mut Case)>> = vec![
+        Box::new(|c| c.mismatch = 0),
         Box::new(|c| c.threads = 1),
         Box::new(|c| c.batch = c.batch.min(1)),
         Box::new(|c| c.lhs_lay = 0),
         Box::new(|c| c.scales = 5),
         Box::new(|c| c.nibbles = 0),
         Box::new(|c| c.lhs_vals = 1),
+        Box::new(|c| c.data_seed = 1),
     ];
     for f in &steps {
         let mut c = cur.clone();
